@@ -39,6 +39,31 @@ def q16Delta (ui_a ui_b : UInt16) (plus : Bool) : Rs.M Rs.U128 := do
     u_z2 := (Rs.wrapping_neg_u128 u_z2)
   return u_z2
 
+
+/-- the tail of `q16Delta` after the two operands are decoded and their scales / fractions combined -/
+def q16Core (k_a0 : Int8) (exp_a0 : Int8) (frac32_z0 : UInt32) (negate : Bool) : Rs.M Rs.U128 := do
+  let mut k_a := k_a0
+  let mut exp_a := exp_a0
+  let mut frac32_z := frac32_z0
+  if (decide (exp_a > (1 : Int8))) then
+    k_a := (← Rs.add_i8 k_a (1 : Int8))
+    exp_a := (exp_a ^^^ (2 : Int8))
+  let rcarry : Bool := ((← Rs.shr_u32 frac32_z (Rs.toInt_i32 (29 : Int32))) != (0 : UInt32))
+  if rcarry then
+    if (exp_a != (0 : Int8)) then
+      k_a := (← Rs.add_i8 k_a (1 : Int8))
+    exp_a := (exp_a ^^^ (1 : Int8))
+    frac32_z := (← Rs.shr_u32 frac32_z (Rs.toInt_i32 (1 : Int32)))
+  let shift_right : Int16 := (← Rs.neg_i16 (← Rs.add_i16 (← Rs.add_i16 (28 : Int16) (← Rs.shl_i16 (Rs.cast_i8_i16 k_a) (Rs.toInt_i32 (1 : Int32)))) (Rs.cast_i8_i16 exp_a)))
+  let mut u_z2 : Rs.U128 := default
+  if (decide (shift_right < (0 : Int16))) then
+    u_z2 := (← Rs.shl_u128 (Rs.cast_u32_u128 frac32_z) (Rs.toInt_i16 (← Rs.neg_i16 shift_right)))
+  else
+    u_z2 := (← Rs.shr_u128 (Rs.cast_u32_u128 frac32_z) (Rs.toInt_i16 shift_right))
+  if negate then
+    u_z2 := (Rs.wrapping_neg_u128 u_z2)
+  return u_z2
+
 /-- the fixed-point image of `±a` computed by `quire16::ops::fdp_one` -/
 def q16Delta1 (ui_a : UInt16) (plus : Bool) : Rs.M Rs.U128 := do
   let mut ui_a := ui_a
@@ -78,6 +103,34 @@ def v28Exact (x : Nat) : Bool := match Spec.toRat Spec.p16 x with | some q => (q
 def v28Table : Array Int := Array.ofFn (n := 65536) (fun i => v28 i.val)
 def v28T (x : Nat) : Int := v28Table.getD x 0
 def v28TableOk (x : Nat) : Bool := v28T x == v28 x
+
+
+/-- `separate_bits` of every positive 15-bit magnitude, tabulated once (`sepTableOk` ties the table to the model function) -/
+def sepTable : Array (Int8 × Int8 × UInt16) := Array.ofFn (n := 32768) (fun i =>
+  match crate.p16e1.P16E1.separate_bits (UInt16.ofNat i.val) with | .ok p => p | .error _ => (0, 0, 0))
+def sepT (x : Nat) : Int8 × Int8 × UInt16 := sepTable.getD x (0, 0, 0)
+def sepTableOk (x : Nat) : Bool :=
+  match crate.p16e1.P16E1.separate_bits (UInt16.ofNat x) with | .ok p => x == 0 || p == sepT x | .error _ => x == 0
+
+/-- sign symmetry of `v28`: the value of a negative pattern is minus the value of its magnitude -/
+def v28NegOk (x : Nat) : Bool := x == 0 || x == 32768 || v28 ((65536 - x) % 65536) == - v28 x
+
+
+/-- per-operand sign facts: `sign_ui` is the top bit, and the magnitude pattern of a negative operand is its two's complement -/
+def signOk (x : Nat) : Bool :=
+  (match crate.p16e1.P16E1.sign_ui (UInt16.ofNat x) with | .ok s => s == decide (x ≥ 32768) | .error _ => false) &&
+  (Rs.wrapping_neg_u16 (UInt16.ofNat x)).toNat == (65536 - x) % 65536
+
+/-- the core applied to two decoded magnitudes: exact product of the two values, with the requested sign -/
+def q16CoreOk (neg : Bool) (a b : Nat) : Bool :=
+  if a == 0 || b == 0 then true else
+  let pa := sepT a; let pb := sepT b
+  match (do let K ← Rs.add_i8 pa.1 pb.1
+            let E ← Rs.add_i8 pa.2.1 pb.2.1
+            let F ← Rs.mul_u32 (Rs.cast_u16_u32 pa.2.2) (Rs.cast_u16_u32 pb.2.2)
+            q16Core K E F neg) with
+  | .ok d => sval128 d == (if neg then -(v28T a * v28T b) else v28T a * v28T b)
+  | .error _ => false
 
 def q16DeltaOk (plus : Bool) (a b : Nat) : Bool :=
   if a == 0 || a == 32768 || b == 0 || b == 32768 then true else
